@@ -51,18 +51,16 @@ def symbol_lookup(ck, sim_inl, sim_cut):
     symbolic ascending offsets and a symbolic lastPC"""
     names = [b'f', b'mn', b'xyz']
     for nsym in (1, 2, 3):
-        offs = [z3.BitVec(f'off{i}', 32) for i in range(nsym)]; lastpc = z3.BitVec('lastPC', 32); cyc = z3.BitVec('cyc', 64); ins = z3.BitVec('instr', 32)
+        offs = [z3.BitVec(f'off{i}', 32) for i in range(nsym)]; lastpc = z3.BitVec('lastPC', 32); prevpc = z3.BitVec('prevPC', 32); cyc = z3.BitVec('cyc', 64); ins = z3.BitVec('instr', 32)
         dbg = list(struct.pack('<I', nsym)) + [x for nm in names[:nsym] for x in list(nm) + [0]] + list(struct.pack('<I', nsym))
         for i in range(nsym):
             dbg += list(struct.pack('<I', i)) + [z3.Extract(8*k+7, 8*k, offs[i]) for k in range(4)]
         data = list(struct.pack('<I', 1)) + [0xD3, 0, 0, 0] + dbg
         E1 = sim_inl.engine(); loader.file_stubs(E1, lambda name: data)
         st = State(); st.pc = [z3.ULT(offs[i], offs[i+1]) for i in range(nsym-1)] + [z3.ULT(ins, 256)]
-        mem = z3.K(z3.BitVecSort(32), z3.BitVecVal(0, 32)); p = sim_inl.new_proc(st, mem)
-        # debugInfo / debugInfoMap as the constructor leaves them: empty vector, empty map
-        for k in range(3): E1.store(st, p.add(sim_inl.off['debugInfo'] + 8*k), 8, NULL)
-        mp = p.add(sim_inl.off['debugInfoMap'])
-        E1.store(st, mp.add(8), 4, 0); E1.store(st, mp.add(16), 8, NULL); E1.store(st, mp.add(24), 8, mp.add(8)); E1.store(st, mp.add(32), 8, mp.add(8)); E1.store(st, mp.add(40), 8, 0)
+        mem = z3.K(z3.BitVecSort(32), z3.BitVecVal(0, 32))
+        # the object comes from its real constructor, so members this harness does not know (a lookup cache, say) hold what a fresh simulator holds
+        st, p = sim_inl.constructed_proc(E1, st, mem)
         rs = E1.run('s_load', [p, E1.alloc_cstr(st, 'image.bin')], st)
         ck.engine(E1, 'Processor::load (debug section)')
         for r in rs:
@@ -85,10 +83,21 @@ def symbol_lookup(ck, sim_inl, sim_cut):
                                ('_ZNSolsE', lambda E_, s_, a_: a_[0]), ('_ZStls', lambda E_, s_, a_: a_[0])]
             E2.stubs['_ZNK5boost12basic_formatIcSt11char_traitsIcESaIcEE3strB5cxx11Ev'] = lambda E_, s_, a_: (stubs.Str(E_, s_, a_[0]).init_local(), a_[0])[1]
             E2.stubs['_ZNSt7__cxx1112basic_stringIcSt11char_traitsIcESaIcEEaSEOS4_'] = lambda E_, s_, a_: a_[0]
-            sim_inl.setf(E2, s2, p, 'lastPC', lastpc); sim_inl.setf(E2, s2, p, 'cycles', cyc)
+            sim_inl.setf(E2, s2, p, 'cycles', cyc)
             for n, v in (('pc', 0), ('areg', 0), ('breg', 0), ('oreg', 0)): sim_inl.setf(E2, s2, p, n, v)
             OUT = s2.alloc(300, 'ostream'); E2.store(s2, p.add(sim_inl.off['out']), 8, OUT)
-            for r2 in E2.run('s_trace', [p, ins, 14], s2):       # PFIX: the part of trace() after the prefix reads no memory
+            # an earlier traced instruction at an arbitrary address (history): whatever trace() remembers must not change the next line
+            sim_inl.setf(E2, s2, p, 'lastPC', prevpc)
+            firsts = []
+            for r1 in E2.run('s_trace', [p, ins, 14], s2):
+                if r1.kind != 'ret':
+                    ok_, m = E2.sat(r1.st)
+                    ck.violation(f"trace-symbol:{nsym}:{r1.kind}", f"trace() with {nsym} symbols ends in {r1.kind}: {r1.val} (lastPC={model_int(m, prevpc)} offsets={[model_int(m, x) for x in offs]})", None); continue
+                r1.st.events = [e for e in r1.st.events if e[0] != 'feed']; firsts.append(r1.st)
+            seconds = []
+            for s3 in firsts:
+                sim_inl.setf(E2, s3, p, 'lastPC', lastpc); seconds += E2.run('s_trace', [p, ins, 14], s3)
+            for r2 in seconds:       # PFIX: the part of trace() after the prefix reads no memory
                 if r2.kind != 'ret':
                     ok_, m = E2.sat(r2.st)
                     ck.violation(f"trace-symbol:{nsym}:{r2.kind}", f"trace() with {nsym} symbols ends in {r2.kind}: {r2.val} (lastPC={model_int(m, lastpc)} offsets={[model_int(m, x) for x in offs]})", None); continue
@@ -114,7 +123,7 @@ def symbol_lookup(ck, sim_inl, sim_cut):
                 else: claims.append(z3.BoolVal(False))        # not the 'count address symbol mnemonic operand' line of a binary with symbols
                 ok, m = ck.prove(E2, r2.st, z3.And(claims), f"trace prefix with {nsym} symbols: count, address, symbol+offset, mnemonic, operand")
                 if not ok:
-                    ck.violation(f"trace-symbol:{nsym}", f"trace() reports {feeds[:2]} for lastPC={model_int(m, lastpc)} with symbol offsets {[model_int(m, x) for x in offs]}", None)
+                    ck.violation(f"trace-symbol:{nsym}", f"trace() reports {feeds[:2]} for lastPC={model_int(m, lastpc)} (previous traced address {model_int(m, prevpc)}) with symbol offsets {[model_int(m, x) for x in offs]}", None)
             ck.engine(E2, 'Processor::trace + lookupSymbol')
     ck.sample({'obligation': 'symbol lookup', 'symbols': 3, 'offsets': 'symbolic ascending', 'lastPC': 'symbolic'})
 
